@@ -33,8 +33,8 @@ def main():
     except vfw.FrameworkError as e:
         fw.problems.append(str(e))
         print('FRAMEWORK ERROR:', e)
-        fw.finish(**getattr(mod, 'FINISH', {}))
-        return 2
+        rc = fw.finish(**getattr(mod, 'FINISH', {}))
+        return 1 if rc == 1 else 2
     except Exception:
         traceback.print_exc()
         fw.problems.append('internal error')
